@@ -64,6 +64,10 @@ CHECKS = {
  "C10": dict(tech="property-based testing (proptest): metamorphic relation between a canonical file and a generated meaning-preserving rewriting of it; repeated evaluation in process and in separate processes",
              text="Each generated building is rendered canonically and through a composition of rewritings (line permutation, splitting a line into pieces that add up, bijective id renumbering incl. to/from 0 and negative ids, omitted id 0, spacing, whitespace, blank and # lines, vector header, BOM, CRLF, demands/metadata positions): both must parse, all numeric fields, RER values and the DHW fraction must agree within tolerance, three repeated evaluations must agree, and a sample is run through the binary twice on the same file and once on the rewritten file (identical report lines, numbers within one printed unit). Exploration.",
              note="Tolerance policy (HashMap summation order); lines are split only when their values are whole hundredths.", ref="4/C10"),
+
+ "C16": dict(tech="property-based testing (proptest) with a corruption grammar and token soups under catch_unwind, out-of-process runs of the binary with a watchdog, and (thorough) two coverage-guided libFuzzer campaigns whose crashes are re-confirmed in process",
+             text="Valid files from building() (without its soundness restrictions) and valid factor files are corrupted (fields / lines dropped, duplicated, truncated, swapped, replaced by NaN, inf, 1e39, empty, non-ASCII digits, unknown tags; changed value counts; raw lines such as #META without colon, NUL, DEMANDA of another length, SALIDA without id; CR-only line ends), token soups and the empty file are added, options are arbitrary f32 incl. NaN/inf: the whole library chain must return values or errors, any panic is a violation. About 5 % of the cases also run the binary with arbitrary UTF-8 option strings, unwritable output paths and missing files: status in {0,1,64,65,73,74}, no signal, no panic text, stderr on failure, 20 s watchdog. Thorough adds fz_components / fz_factors (libFuzzer, fork mode, seed corpus from test_data, dictionary). Exploration.",
+             note="Files <= 4 KiB; UTF-8 argv only; debug build of the CLI; a fuzz artifact that does not reproduce in process (slow input, OOM) is inconclusive, not a violation.", ref="4/C16"),
 }
 PENDING = {}
 TITLES = {}
@@ -81,6 +85,8 @@ m = {
    "add_only": True
  },
  "engines": [
+   {"name": "libfuzzer", "path": "fuzz", "serves_properties": ["C16"],
+    "kind_free_text": "cargo-fuzz 0.13 crate with two libFuzzer targets (fz_components, fz_factors), seed corpus under corpus/, dictionary fuzz/cteepbd.dict; run by the thorough tier of C16 only; crashes are re-confirmed through vcheck's plain check"},
    {"name": "vcheck", "path": "harness", "serves_properties": sorted(CHECKS.keys()),
     "kind_free_text": "Rust binary using proptest 1.11 as a library (TestRunner, ChaCha seeded from VERIF_SEED, 16 workers), explicit oracles per property, shrinking to a JSON replay file; also drives /repo's cteepbd binary out of process for the CLI properties"},
  ],
